@@ -120,6 +120,7 @@ def run(ctx):
                           "b": q(hi) if np.isfinite(hi) else ("-1" + "0" * 30 if hi < 0 else "1" + "0" * 30)})
             expect.append(("mask", used))
             metas.append(meta)
+    sequences(ctx)
     out = ctx.driver("Fit", lines) if lines else None
     if out is not None:
         for (kind, val), o, meta in zip(expect, out, metas):
@@ -131,6 +132,64 @@ def run(ctx):
                 g = np.array(fitlib.parse_list(o))
                 if len(g) != len(val) or np.any(np.abs(g - val) > 8 * EPS * np.abs(val).max()):
                     ctx.disagree(meta, list(map(float, val[:3])), list(map(float, g[:3])), "plateau scan grid")
+
+
+def sequences(ctx):
+    """settings given in one call and used by a later one: the plateau scan must use the requested number of
+    samples and the requested upper bound no matter in which call they were passed"""
+    import warnings
+    rng = ctx.rng
+    for i in range(3 if ctx.tier == "quick" else 25):
+        mk = rng.choice(fitlib.MODELS[:3])
+        truth = fitlib.truth_params(mk, rng, cp=0.0)
+        n1, n2 = rng.choice([7, 12, 24]), rng.choice([9, 15, 31])
+        hi = rng.choice([0.0, 4e-7])
+        scen = rng.choice(["samples-then-search", "search-off-samples-on", "upper-bound-then-search"])
+        idnt = fitlib.synth_curve(mk, truth, rng, n_app=300, n_ret=100, noise=1e-11, seed=i)
+        hist = []
+        with warnings.catch_warnings():
+            warnings.simplefilter("ignore")
+            try:
+                if scen == "samples-then-search":
+                    idnt.fit_model(model_key=mk, optimal_fit_num_samples=n1, range_type="absolute", range_x=[-2e-6, hi])
+                    hist.append(f"fit_model(optimal_fit_num_samples={n1}, range_x=[-2e-6, {hi}])")
+                    idnt.fit_model(optimal_fit_edelta=True)
+                    hist.append("fit_model(optimal_fit_edelta=True)")
+                    want_n, want_hi = n1, hi
+                elif scen == "search-off-samples-on":
+                    idnt.fit_model(model_key=mk, optimal_fit_edelta=True, optimal_fit_num_samples=n1,
+                                   range_type="absolute", range_x=[-2e-6, hi])
+                    idnt.fit_model(optimal_fit_edelta=False)
+                    idnt.fit_model(optimal_fit_num_samples=n2)
+                    idnt.fit_model(optimal_fit_edelta=True)
+                    hist += [f"fit_model(optimal_fit_edelta=True, optimal_fit_num_samples={n1})",
+                             "fit_model(optimal_fit_edelta=False)", f"fit_model(optimal_fit_num_samples={n2})",
+                             "fit_model(optimal_fit_edelta=True)"]
+                    want_n, want_hi = n2, hi
+                else:
+                    idnt.fit_model(model_key=mk, range_type="absolute", range_x=[-2e-6, hi])
+                    idnt.fit_model(optimal_fit_edelta=True, optimal_fit_num_samples=n1)
+                    hist += [f"fit_model(range_x=[-2e-6, {hi}])",
+                             f"fit_model(optimal_fit_edelta=True, optimal_fit_num_samples={n1})"]
+                    want_n, want_hi = n1, hi
+            except BaseException as e:  # noqa
+                ctx.violation(f"sequence-raises:{scen}", f"{hist} + next call raised {e!r}", {"history": hist})
+                continue
+        fp = idnt.fit_properties
+        ctx.case({"sequence": scen, "history": hist}, nontrivial=f"seq:{scen}:{i}:{n1}:{n2}:{hi}", bucket="stream=sequences")
+        got_n = len(fp.get("optimal_fit_delta_array", []))
+        if got_n != want_n:
+            ctx.violation("plateau-sample-count:sequence", f"{hist}: the scan has {got_n} samples, {want_n} were "
+                          "requested", {"history": hist, "observed": got_n, "expected": want_n})
+        x = np.asarray(idnt["tip position"], dtype=float)
+        seg = np.asarray(idnt["segment"]) == 0
+        used = np.asarray(idnt["fit range"], dtype=bool)
+        dopt = fp.get("optimal_fit_delta")
+        if dopt is not None and fp.get("success"):
+            exp = expected_mask(x, seg, float(dopt), float(want_hi)) if want_hi != dopt else None
+            if exp is not None and not np.array_equal(exp, used):
+                ctx.violation("wrong-points:plateau:sequence", f"{hist}: {int(np.sum(exp != used))} points differ from "
+                              f"the closed interval [{dopt}, {want_hi}]", {"history": hist})
 
 
 def replay(ctx, path):
